@@ -92,12 +92,20 @@ func gateFrame(vx *vaxis.Vaxis, m *screenmodel.Model) {
 // absentReply: DECRPM status the swept terminal gives for optional modes it does not implement
 var absentReply int
 
+// further shapes of the same answers: a positive XTGETTCAP reply that carries the name only; size reports
+// (in-band resize among them) with zero pixel sizes
+var tcapNameOnly, noPixelSizes bool
+
 func sweepProfile(i int, initCol int, opts vaxis.Options) {
 	caps := refterm.Cap(i & (1<<refterm.NumGatingCaps - 1))
 	ver := refterm.Version(i >> refterm.NumGatingCaps & 3)
 	prof := refterm.DefaultProfile(caps, ver)
 	prof.InitCol = initCol
 	prof.AbsentModeReply = absentReply
+	prof.TcapNameOnly = tcapNameOnly
+	if noPixelSizes {
+		prof.CellW, prof.CellH = 0, 0
+	}
 	// reporting capabilities: a rotating subset so that the accessor clause is exercised
 	rep := []refterm.Cap{refterm.CapOSC4, refterm.CapOSC10, refterm.CapOSC11, refterm.CapKittyGraphics, refterm.CapDECRQSS, refterm.CapSizeReports}
 	for k, c := range rep {
@@ -364,6 +372,16 @@ func main() {
 					sweepProfile(i, i%3, vaxis.Options{})
 					absentReply = 0
 				}
+				if i%4 == 2 || r.Thorough() {
+					tcapNameOnly = true
+					sweepProfile(i, i%3, vaxis.Options{})
+					tcapNameOnly = false
+				}
+				if i%4 == 3 || r.Thorough() {
+					noPixelSizes = true
+					sweepProfile(i, i%3, vaxis.Options{})
+					noPixelSizes = false
+				}
 				r.Distinct(explore.Hash("prof", fmt.Sprint(i)))
 				if i%3001 == idx {
 					r.Sample(map[string]any{"part": "sweep", "profile_index": i})
@@ -411,7 +429,7 @@ func main() {
 	}
 	r.Finish(explore.Coverage{
 		States: -1, Transitions: n, Traces: n, Evaluations: n,
-		Rule:       "(a) every profile of the gating capability space (2^12 x 4 XTVERSION strings) with rotating initial cursor column and reporting capabilities: Can* accessors, a gate-exercising frame (RGB fg/bg/underline colour, every underline style, hyperlink, wide glyph), Suspend/Resume, Close; every sequence received by the reference terminal is classified baseline/query/gated and each gated one needs its advertisement; the frame must show faithfully (palette fallback nearest, underline collapse). (b) " + colourRule + " as fg, bg and underline colour through the real renderer on a terminal without RGB, against an exact-integer nearest-entry reference (ties accepted). (c) every grapheme of the width alphabet under {2027, OSC 66} x 4 XTVERSION strings: RenderedWidth, Window.Print advance and the terminal's own layout. distinct = profiles + (profile, grapheme) pairs that passed",
+		Rule:       "(a) every profile of the gating capability space (2^12 x 4 XTVERSION strings) with rotating initial cursor column and reporting capabilities (a quarter of the profiles each also with DECRPM status 4 for absent modes, with name-only positive XTGETTCAP answers, and with zero pixel sizes in the size reports; thorough: all of them): Can* accessors, a gate-exercising frame (RGB fg/bg/underline colour, every underline style, hyperlink, wide glyph), Suspend/Resume, Close; every sequence received by the reference terminal is classified baseline/query/gated and each gated one needs its advertisement; the frame must show faithfully (palette fallback nearest, underline collapse). (b) " + colourRule + " as fg, bg and underline colour through the real renderer on a terminal without RGB, against an exact-integer nearest-entry reference (ties accepted). (c) every grapheme of the width alphabet under {2027, OSC 66} x 4 XTVERSION strings: RenderedWidth, Window.Print advance and the terminal's own layout. distinct = profiles + (profile, grapheme) pairs that passed",
 		Exhaustive: true,
 		Bounds:     map[string]any{"profiles": nProf, "colours_checked": r.Get("colours"), "width_alphabet": widthAlphabet},
 		Assumptions: []string{
